@@ -1,6 +1,7 @@
 (* C17 -- segment statistics and bin tests match their definitions on the right bins.
    Property theorems only; proofs live in Proofs/SegmetricsLib.v, SegmetricsBins.v,
-   Segmetrics.v, SegmetricsBivar.v, BintestBH.v, Bintest.v.
+   Segmetrics.v, SegmetricsBivar.v, BintestBH.v, Bintest.v; extension: SegmetricsLib2.v,
+   BintestTable.v, FnSegmetrics.v.
 
    Models: Model/Segmetrics.v (do_segmetrics; bins selected through the C07 model of
    iter_ranges_of, estimators of Model/Descriptives.v), Model/Bintest.v (residuals, z_prob,
@@ -15,8 +16,9 @@ From CNV Require Import Base.Prelude Base.QNum Proofs.QNumLemmas
   Model.Ranges Model.Descriptives Model.Segmetrics Model.Bintest
   Spec.RangeQuery Spec.SegBins Spec.Stats17 Spec.Bintest
   Proofs.SegmetricsLib Proofs.SegmetricsBins Proofs.Segmetrics Proofs.SegmetricsBivar
-  Proofs.BintestBH Proofs.Bintest.
-From Coq Require Import Qround Qabs.
+  Proofs.BintestBH Proofs.Bintest Proofs.SegmetricsLib2 Proofs.BintestTable
+  Gen.FnSegmetrics Gen.FnBintest Proofs.FnSegmetrics.
+From Coq Require Import Qround Qabs Setoid Morphisms.
 Local Open Scope Q_scope.
 
 (* ---- the preconditions are satisfiable: gaps, a bin cut by a boundary, an empty and a
@@ -38,7 +40,7 @@ Example ex_selection :
   [[0; 1]; [1; 2]; []; [3]; []]%nat.
 Proof. vm_compute. reflexivity. Qed.
 Example ex_row :
-  map snd (do_segmetrics (fun _ => mkOracles 0 0 (fun t _ => t) 40 [] [])
+  map snd (do_segmetrics (fun _ => mkOracles 0 0 (fun t _ => t) 40 (fun _ _ _ _ => []) (fun _ _ _ _ => []) (fun _ => 1) (fun x => x))
              (mkConfig ["mean"%string; "median"%string] ["mse"%string; "stdev"%string] ["pi"%string] (1 # 2) 100 false false)
              ex_bins (firstn 1 ex_segs)) =
   [[("mean"%string, Some (3 # 2)); ("median"%string, Some (3 # 2)); ("mse"%string, Some (5 # 4));
@@ -149,7 +151,7 @@ Proof. exact ci_order. Qed.
    index matrix with entries in [0, k) *)
 Theorem C17_ci_order_range : forall O alpha boots vals wts lo hi, 0 < alpha -> alpha < 1 ->
   length wts = length vals -> (forall w, In w wts -> 0 < w) ->
-  idx_contract (length vals) (o_idx O) ->
+  idx_contract (length vals) (ci_resamples O boots (length vals)) ->
   ci_func O alpha boots false vals wts = Some (lo, hi) ->
   lo <= hi /\ qmin vals <= lo /\ hi <= qmax vals.
 Proof. exact ci_order_range. Qed.
@@ -166,14 +168,20 @@ Proof. exact ci_pcts_text. Qed.
 Theorem C17_ci_smoothed_range_refuted :
   exists O alpha boots vals wts lo,
     0 < alpha /\ alpha < 1 /\ length wts = length vals /\ (forall w, In w wts -> 0 < w) /\
-    idx_contract (length vals) (o_idx O) /\
+    idx_contract (length vals) (ci_resamples O boots (length vals)) /\
     ci_func O alpha boots true vals wts = Some (lo, lo) /\ lo < qmin vals.
 Proof. exact ci_smoothed_range_refuted. Qed.
 
 (* reproducible run to run: the resampling is seeded with the constant 0xA5EED on every
    call, single-bin segments are never resampled (frame statement: C10) *)
-Theorem C17_ci_seed : ci_seed = 679661%Z /\ ci_min_k = 2%Z.
-Proof. split; reflexivity. Qed.
+(* strengthened: ... and the interval a call returns does not depend on the state numpy's global
+   generator is in when the call is made (the state is explicit in [ci_run]); see
+   C17_ci_seed_state / C17_ci_reproducible below *)
+Theorem C17_ci_seed :
+  (ci_seed = 679661%Z /\ ci_min_k = 2%Z) /\
+  (forall St (G : rng St) O st st' alpha boots smoothed vals wts,
+     fst (ci_run G O st alpha boots smoothed vals wts) = fst (ci_run G O st' alpha boots smoothed vals wts)).
+Proof. exact ci_seed_strong. Qed.
 
 (* ==== C17_columns_kept: the segment table's own columns come back unchanged ============ *)
 Theorem C17_columns_kept : forall Os cfg bins segs, map fst (do_segmetrics Os cfg bins segs) = segs.
@@ -257,3 +265,229 @@ Theorem C17_hits_order : forall bins segs,
   length r = length (dedupe [] r) -> length (dedupe [] r) = length bins ->
   map c_idx (candidates bins segs false) = map fst (filter (has_cand (dedupe [] r)) (tagged bins)).
 Proof. exact candidates_table_order. Qed.
+
+(* ======================================================================================== *)
+(* ==== extension: the bootstrap machinery exactly ========================================= *)
+(* the number of resamples: raised to ceil(2/alpha) when bootstraps <= 2/alpha, kept otherwise
+   -- the least integer that is >= bootstraps and >= 2/alpha; q2a is the quotient 2/alpha as
+   the code holds it *)
+Theorem C17_ci_bootstraps : forall b q2a,
+  n_boot b q2a = Z.max b (Qceiling q2a) /\
+  (inject_Z b <= q2a -> n_boot b q2a = Qceiling q2a) /\ (q2a < inject_Z b -> n_boot b q2a = b) /\
+  (b <= n_boot b q2a)%Z /\ q2a <= inject_Z (n_boot b q2a) /\
+  (forall m, (b <= m)%Z -> q2a <= inject_Z m -> (n_boot b q2a <= m)%Z).
+Proof. exact n_boot_summary. Qed.
+
+(* for the exact quotient and alpha in (0,1): at least 3 resamples, at least one in each tail *)
+Theorem C17_ci_bootstraps_alpha : forall b q2a alpha, 0 < alpha -> alpha < 1 -> q2a == 2 / alpha ->
+  (3 <= n_boot b q2a)%Z /\ 1 <= inject_Z (n_boot b q2a) * (alpha / 2).
+Proof. exact n_boot_alpha. Qed.
+Example ex_n_boot : n_boot 100 40 = 100%Z /\ n_boot 40 40 = 40%Z /\ n_boot 10 (81 # 2) = 41%Z /\ n_boot 39 40 = 40%Z.
+Proof. vm_compute. repeat split; reflexivity. Qed.
+
+(* no bin: no interval; one bin (k < 2): the value twice, nothing drawn; otherwise the
+   100 alpha/2 and 100 (1 - alpha/2) percentiles of the bootstrap distribution *)
+Theorem C17_ci_cases : forall O alpha boots smoothed vals wts,
+  match vals with
+  | [] => ci_func O alpha boots smoothed vals wts = None
+  | [x] => ci_func O alpha boots smoothed vals wts = Some (x, x)
+  | _ => ci_func O alpha boots smoothed vals wts =
+         Some (percentile (ci_pct_lo alpha) (ci_dist O boots smoothed vals wts),
+               percentile (ci_pct_hi alpha) (ci_dist O boots smoothed vals wts))
+  end.
+Proof. exact ci_func_cases. Qed.
+
+(* the index matrix is drawn after seed(0xA5EED) with shape (n_boot bootstraps) x k, entries in [0, k) *)
+Theorem C17_ci_matrix_shape : forall O boots k, randint_contract (o_randint O) ->
+  ci_resamples O boots k = o_randint O 679661%Z k (Z.to_nat (n_boot boots (o_q2a O))) k /\
+  length (ci_resamples O boots k) = Z.to_nat (n_boot boots (o_q2a O)) /\
+  Forall (fun r => length r = k /\ Forall (fun i => (i < k)%nat) r) (ci_resamples O boots k).
+Proof. exact ci_matrix_shape. Qed.
+
+(* un-smoothed: one textbook weighted mean per row, over the bins the row names *)
+Theorem C17_ci_resample_means : forall O boots vals wts,
+  eqQ (ci_dist O boots false vals wts)
+      (map (fun idx => wmean_def (map (fun i => nth i vals 0) idx) (map (fun i => nth i wts 0) idx))
+           (ci_resamples O boots (length vals))).
+Proof. exact ci_dist_plain. Qed.
+
+(* the un-smoothed interval lies in the bins' range for every generator meeting the contract *)
+Theorem C17_ci_order_range_contract : forall O alpha boots vals wts lo hi, 0 < alpha -> alpha < 1 ->
+  length wts = length vals -> (forall w, In w wts -> 0 < w) ->
+  randint_contract (o_randint O) -> 0 < o_q2a O ->
+  ci_func O alpha boots false vals wts = Some (lo, hi) ->
+  lo <= hi /\ qmin vals <= lo /\ hi <= qmax vals.
+Proof. exact ci_order_range_contract. Qed.
+
+(* C17_ci_smoothed_formula: element c of resample r is v_i + bw * sqrt(1 - w_i) * z_rc (i the bin
+   drawn at (r, c), bw the bandwidth oracle k^(-1/4) at k = number of bins, z the standard-normal
+   draws, one vector per row); the mean of the row is weighted by the un-smoothed w_i *)
+Theorem C17_ci_smoothed_formula : forall O boots vals wts, Proper (Qeq ==> Qeq) (o_sqrt O) ->
+  eqQ (ci_dist O boots true vals wts)
+      (map2 (fun idx z => wmean_def (smoothed_sample (o_sqrt O) (o_bw O (length vals)) vals wts idx z)
+                                    (map (fun i => nth i wts 0) idx))
+            (ci_resamples O boots (length vals)) (ci_normals O boots (length vals))).
+Proof. exact ci_dist_smoothed. Qed.
+(* the exponent of the bandwidth and the 1 of sqrt(1 - w) are the source's *)
+Theorem C17_ci_smoothed_constants : (sm_bw_exp_num = 1 /\ sm_bw_exp_den = 4)%Z /\ sm_one == 1.
+Proof. exact smoothed_constants. Qed.
+
+(* bins of weight 1 get no noise (sqrt 0 = 0): with all weights 1 the smoothed interval is the
+   plain one, hence inside the bins' range *)
+Theorem C17_ci_smoothed_weight_one : forall O boots vals wts,
+  Proper (Qeq ==> Qeq) (o_sqrt O) -> o_sqrt O 0 == 0 ->
+  randint_contract (o_randint O) -> randn_contract (o_randn O) ->
+  length wts = length vals -> (forall w, In w wts -> w == 1) ->
+  eqQ (ci_dist O boots true vals wts) (ci_dist O boots false vals wts).
+Proof. exact ci_dist_weight_one. Qed.
+
+(* C17_ci_seed, strengthened: with numpy's hidden random state explicit, the interval a call
+   returns is the seed-indexed one whatever state the process is in -- a function of (values,
+   weights, alpha, bootstraps, smoothed) and the seed alone; the state it leaves behind does
+   not depend on the state it found (k >= 2) or is that state untouched (k < 2); so does a
+   whole pass over the segments, and a second pass in the same process repeats the first *)
+Theorem C17_ci_seed_state : forall St (G : rng St) O st alpha boots smoothed vals wts,
+  fst (ci_run G O st alpha boots smoothed vals wts) = ci_func (rng_oracles G O) alpha boots smoothed vals wts /\
+  ((2 <= length vals)%nat -> forall st', snd (ci_run G O st alpha boots smoothed vals wts) =
+                                          snd (ci_run G O st' alpha boots smoothed vals wts)) /\
+  ((length vals < 2)%nat -> snd (ci_run G O st alpha boots smoothed vals wts) = st).
+Proof. exact ci_seed_state. Qed.
+
+Theorem C17_ci_reproducible : forall St (G : rng St) O st st' alpha boots smoothed segs,
+  fst (calc_intervals_run G O st alpha boots smoothed segs) =
+  fst (calc_intervals_run G O st' alpha boots smoothed segs) /\
+  fst (calc_intervals_run G O (snd (calc_intervals_run G O st alpha boots smoothed segs)) alpha boots smoothed segs) =
+  fst (calc_intervals_run G O st alpha boots smoothed segs) /\
+  fst (calc_intervals_run G O st alpha boots smoothed segs) =
+  map (fun vw => ci_func (rng_oracles G O) alpha boots smoothed (fst vw) (snd vw)) segs.
+Proof. exact ci_reproducible. Qed.
+
+(* ==== extension: assembly of the output table =========================================== *)
+(* C17_table_columns: known, distinct names in each family -- the statistic columns are the
+   requested location statistics in the requested order, then the requested spread statistics
+   in the requested order, then ci_lo, ci_hi, then pi_lo, pi_hi (in that order whatever the
+   order of interval_stats), and nothing else *)
+Theorem C17_table_columns : forall O cfg sl vals wts, names_ok cfg ->
+  map fst (row_of_values O cfg sl vals wts) =
+  c_loc cfg ++ c_spread cfg ++
+  (if has "ci" (c_ivl cfg) then ["ci_lo"; "ci_hi"]%string else []) ++
+  (if has "pi" (c_ivl cfg) then ["pi_lo"; "pi_hi"]%string else []).
+Proof. exact row_columns_ok. Qed.
+Example ex_names_ok : names_ok (mkConfig ["p_ttest"; "mean"]%string ["sem"; "bivar"; "mad"]%string ["pi"; "ci"]%string (1 # 20) 100 false false).
+Proof.
+  repeat split; try (repeat constructor; cbn; intuition discriminate);
+    intros n H; cbn in H; repeat destruct H as [<-|H]; try reflexivity; destruct H.
+Qed.
+
+(* any name lists (repeats, unknown names): every name once, at its first assignment; the same
+   columns in every row of the table; no statistic column unless requested *)
+Theorem C17_table_columns_general : forall Os cfg bins segs,
+  Forall (fun r => map fst (snd r) = first_occurrences (requested_columns cfg)) (do_segmetrics Os cfg bins segs).
+Proof. exact do_segmetrics_table_columns. Qed.
+
+Theorem C17_table_only_requested : forall O cfg sl vals wts nm,
+  In nm (map fst (row_of_values O cfg sl vals wts)) ->
+  (In nm (c_loc cfg) /\ is_loc_name nm = true) \/ (In nm (c_spread cfg) /\ is_spread_name nm = true) \/
+  (has "ci" (c_ivl cfg) = true /\ In nm ["ci_lo"; "ci_hi"]%string) \/
+  (has "pi" (c_ivl cfg) = true /\ In nm ["pi_lo"; "pi_hi"]%string).
+Proof. exact row_columns_only_requested. Qed.
+
+(* and the value in a requested column is that statistic: of the bins' log2 (location), of the
+   deviations from the segment log2 (spread) *)
+Theorem C17_table_values : forall O cfg sl vals wts nm f, names_ok cfg ->
+  (In nm (c_loc cfg) -> loc_stat O nm = Some f -> In (nm, f vals) (row_of_values O cfg sl vals wts)) /\
+  (In nm (c_spread cfg) -> spread_stat O nm = Some f ->
+   In (nm, f (map (fun x => qsub x sl) vals)) (row_of_values O cfg sl vals wts)).
+Proof. exact table_values. Qed.
+
+(* ==== extension: the t-test column ======================================================= *)
+(* p_ttest depends on the bins only through t^2 and their number (contract of the tail oracle:
+   a function of the numbers (t^2, df), 1 at t = 0) *)
+Theorem C17_ttest_function_of_t2_n : forall tt a a', tt_contract tt -> (2 <= length a)%nat -> length a = length a' ->
+  ~ var_ddof1 a == 0 -> ~ var_ddof1 a' == 0 -> t_squared a == t_squared a' ->
+  exists p p', st_pttest tt a = Some p /\ st_pttest tt a' = Some p' /\ p == p'.
+Proof. exact st_pttest_fun_t2_n. Qed.
+
+(* mean 0, some spread: t = 0, the oracle is asked at 0, p = 1 *)
+Theorem C17_ttest_zero_mean : forall tt a, tt_contract tt -> (2 <= length a)%nat -> ~ var_ddof1 a == 0 ->
+  qmean a == 0 ->
+  t_squared a == 0 /\ exists p, st_pttest tt a = Some p /\ p == tt 0 (length a - 1)%nat /\ p == 1.
+Proof. exact st_pttest_zero_mean. Qed.
+
+(* no bin, one bin: NaN; no spread (e.g. all bins equal): NaN if the mean is 0 too, else 0 *)
+Theorem C17_ttest_degenerate : forall tt,
+  st_pttest tt [] = None /\ (forall x, st_pttest tt [x] = None) /\
+  (forall a, (2 <= length a)%nat -> var_ddof1 a == 0 ->
+     st_pttest tt a = if qeq_b (qmean a) 0 then None else Some 0).
+Proof. exact st_pttest_degenerate. Qed.
+
+Theorem C17_ttest_all_equal : forall c a, a <> [] -> (forall x, In x a -> x == c) -> var_ddof1 a == 0.
+Proof. exact var_ddof1_const. Qed.
+
+(* ==== extension: do_bintest end to end =================================================== *)
+(* C17_bintest_table: the returned table has the input's columns (log2 in place), then probes,
+   then p_bintest; its (index, log2, p_bintest) columns are the hits; every row is the input
+   bin carrying that index label with log2 := residual and nothing else changed, probes = 1 *)
+Theorem C17_bintest_table : forall phi bins segs alpha target_only,
+  map (fun h => (h_idx h, b_log2 (h_bin h), h_p h)) (do_bintest_table phi bins segs alpha target_only) =
+  do_bintest phi bins segs alpha target_only /\
+  Forall (fun h => (h_idx h < length bins)%nat /\
+                   h_bin h = set_log2 (nth (h_idx h) bins dflt_bin) (b_log2 (h_bin h)) /\
+                   h_probes h = 1%Z)
+         (do_bintest_table phi bins segs alpha target_only).
+Proof. exact bintest_table_summary. Qed.
+
+Theorem C17_bintest_columns :
+  bintest_columns false = ["chromosome"; "start"; "end"; "gene"; "log2"; "weight"; "probes"; "p_bintest"]%string /\
+  bintest_columns true = ["chromosome"; "start"; "end"; "gene"; "log2"; "weight"; "depth"; "probes"; "p_bintest"]%string.
+Proof. exact bintest_columns_text. Qed.
+
+(* hits row order in general: table order when the residuals cover every bin exactly once;
+   otherwise the order of the residuals (segment by segment as the segment table lists them,
+   first occurrence of a bin kept, C17_residuals) *)
+Theorem C17_hits_order_general : forall bins segs,
+  let r := resid_rows bins segs in
+  let r' := dedupe [] r in
+  map c_idx (candidates bins segs false) =
+  if Nat.eqb (length r) (length r') && Nat.eqb (length r') (length bins)
+  then seq 0 (length bins) else map c_idx r'.
+Proof. exact candidates_order_general. Qed.
+
+(* segments listed in the table's order: the tested rows are the residual rows, by increasing
+   index label = table order *)
+Theorem C17_hits_order_sorted : forall bins segs,
+  let r := resid_rows bins segs in
+  StronglySorted lt (map c_idx r) ->
+  StronglySorted lt (map c_idx (candidates bins segs false)) /\
+  (forall i, In i (map c_idx (candidates bins segs false)) <-> In i (map c_idx r)).
+Proof. exact candidates_sorted_order. Qed.
+
+(* weights exactly 1: sqrt(1 - w) = 0, z = r/0 -- p = 0 for a non-zero residual (adjusted p 0:
+   reported at every alpha > 0), NaN for a zero residual (then C17_hits_nan: no hit at all) *)
+Theorem C17_zscore_weight_one : forall phi r w, w == 1 ->
+  zsq r w = (if qeq_b r 0 then Znan else Zinf) /\
+  p_of phi (zsq r w) = if qeq_b r 0 then None else Some 0.
+Proof. exact zscore_weight_one_summary. Qed.
+
+Theorem C17_bh_zero : forall ps, pvals ps -> In 0 ps -> bh_val ps 0 == 0.
+Proof. exact bh_val_zero. Qed.
+
+(* ==== extension: source ties (function bodies translated by tools/py2v_fn.py) ============ *)
+Theorem C17_source_pi_pcts : forall alpha,
+  fst (fn_pi_pcts alpha) == pi_pct_lo alpha /\ snd (fn_pi_pcts alpha) == pi_pct_hi alpha.
+Proof. exact fn_pi_pcts_eq. Qed.
+
+Theorem C17_source_new_boots : forall alpha, fn_new_boots alpha = Qceiling (2 / alpha).
+Proof. exact fn_new_boots_eq. Qed.
+
+Theorem C17_source_n_boot : forall b q2a alpha, q2a == 2 / alpha ->
+  n_boot b q2a = if Qle_bool (inject_Z b) (2 / alpha) then fn_new_boots alpha else b.
+Proof. exact n_boot_source. Qed.
+
+Theorem C17_source_z_score : forall sd r w z2, w < 1 -> sd * sd == 1 - w -> zsq r w = Zfin z2 ->
+  fn_z_score sd r * fn_z_score sd r == z2.
+Proof. exact fn_z_score_eq. Qed.
+
+Theorem C17_source_z_p : forall phi z2,
+  p_of phi (Zfin z2) = Some (qmul z_two (phi z2)) /\ qmul z_two (phi z2) == fn_z_p (phi z2).
+Proof. exact fn_z_p_eq. Qed.
